@@ -29,7 +29,7 @@ def run(ctx):
                "PROPERTY PBestMonotone GBestMonotone\nCHECK_DEADLOCK FALSE\n" % ((3, "1, 2, 3") if q else (4, "1, 2, 3, 4")),
                "mc-swarm", workers=4 if q else 10, timeout=3000)
     runlib.run_templates(ctx, ["C18"], seeds=[ctx.seed, ctx.seed + 1, ctx.seed + 2] if q else list(range(ctx.seed, ctx.seed + 50)),
-                         iters=[0, 1, 6, 25] if q else [0, 1, 6, 25, 80], templates=["real_pso", "real_pso|evals"], quick_grid=False)
+                         iters=[0, 1, 6, 25] if q else [0, 1, 6, 25, 80], templates=["real_pso", "real_pso|evals", "real_pso|log4"], quick_grid=False)
     return ctx.finish(RULE)
 
 
